@@ -178,6 +178,11 @@ class RSAPSSAlgModel(JWSAlgModel):
 
     def verify(self, msg: bytes, sig: bytes, key: RSAKey) -> bool:
         op_key = key.get_op_key("verify")
+        # https://www.rfc-editor.org/rfc/rfc8017#section-8.1.2
+        # If the length of the signature is not k octets, where k is the
+        # length in octets of the RSA modulus, it is an invalid signature.
+        if len(sig) != (op_key.key_size + 7) // 8:
+            return False
         try:
             op_key.verify(sig, msg, self.padding, self.hash_alg())
             return True
